@@ -109,7 +109,7 @@ fn gen_sworld(base: u64, run: u64) -> SWorld {
     // haystack from the pattern's alphabet plus multi-byte characters
     let mut alpha: Vec<char> = pattern.chars().filter(|c| c.is_alphanumeric() || *c == ' ').collect();
     alpha.extend(alpha.clone());
-    alpha.extend(['a', 'b', 'c', '1', '2', ' ', '\n', 'é', 'ß', '𝒳', 'x']);
+    alpha.extend(['a', 'b', 'c', '1', '2', ' ', '\n', 'é', 'ß', '𝒳', 'x', '€', '\u{2028}', 'ア']);
     let n = match wl.below(32) {
         0..=2 => 0,
         3..=5 => 1,
